@@ -76,12 +76,26 @@ impl<E: FieldElement, H: ElementHasher<BaseField = E::BaseField>> VerifierChanne
         let lde_domain_size = air.lde_domain_size();
         let fri_options = air.options().to_fri_options();
 
+        // a GKR proof is expected only for computations with a Lagrange kernel column
+        if gkr_proof.is_some() && !air.context().has_lagrange_kernel_aux_column() {
+            return Err(VerifierError::ProofDeserializationError(
+                "GKR proof provided for a computation without a Lagrange kernel column".to_string(),
+            ));
+        }
+
         // --- parse commitments ------------------------------------------------------------------
         let (trace_roots, constraint_root, fri_roots) = commitments
             .parse::<H>(num_trace_segments, fri_options.num_fri_layers(lde_domain_size))
             .map_err(|err| VerifierError::ProofDeserializationError(err.to_string()))?;
 
         // --- parse trace and constraint queries -------------------------------------------------
+        if num_unique_queries == 0 || num_unique_queries as usize > air.options().num_queries() {
+            return Err(VerifierError::ProofDeserializationError(format!(
+                "number of unique queries must be between 1 and {}, but was {}",
+                air.options().num_queries(),
+                num_unique_queries
+            )));
+        }
         let trace_queries = TraceQueries::new(trace_queries, air, num_unique_queries as usize)?;
         let constraint_queries =
             ConstraintQueries::new(constraint_queries, air, num_unique_queries as usize)?;
@@ -91,6 +105,14 @@ impl<E: FieldElement, H: ElementHasher<BaseField = E::BaseField>> VerifierChanne
         let fri_remainder = fri_proof
             .parse_remainder()
             .map_err(|err| VerifierError::ProofDeserializationError(err.to_string()))?;
+        let num_fri_layers = fri_options.num_fri_layers(lde_domain_size);
+        if fri_proof.num_layers() != num_fri_layers {
+            return Err(VerifierError::ProofDeserializationError(format!(
+                "expected {} FRI layers, but was {}",
+                num_fri_layers,
+                fri_proof.num_layers()
+            )));
+        }
         let (fri_layer_queries, fri_layer_proofs) = fri_proof
             .parse_layers::<H, E>(lde_domain_size, fri_options.folding_factor())
             .map_err(|err| VerifierError::ProofDeserializationError(err.to_string()))?;
